@@ -10,7 +10,8 @@ tree: `NBSP_PLACEHOLDER` = `STX qq3936677670287331zz ETX` behind the text of the
 stage, `FootnotePostTreeprocessor`, prettify, attr_list, abbr, toc, unescape and the serialiser as part of ordinary
 texts, and are replaced only by `FootnotePostprocessor` in the serialised string.  The token grammar `WF` of
 `Spec/NoCtl.lean` does not admit them; `Spec/F/NoCtl.lean` (namespaces `MdVerif.NoCtlF`, `MdVerif.NoCtlXF`) generalises it
-by one constructor (`WF.frn`), and `Lemmas/F/Placeholders*.lean` redo the whole invariant chain of C10/C10b/C10X for the
+by one constructor (`WF.frn`, foreign tokens: the two footnote tokens and — for `Props/C10XAll.lean` — the live raw-HTML
+placeholders of fenced_code; parameters in `Spec/F/HtmlBound.lean`), and `Lemmas/F/Placeholders*.lean` redo the whole invariant chain of C10/C10b/C10X for the
 generalised grammar:
 
 * a code span may now lie before — and enclose — a footnote token: `BtSafe` is relativised to the STX that do not
@@ -27,9 +28,9 @@ generalised grammar:
    abbreviations is needed, and it has to range over the abbreviations defined INSIDE footnote bodies as well.
 
 Vocabulary: `Spec/F/NoCtl.lean`, `Spec/F/NoCtlB.lean`, `Spec/F/NoCtlX.lean`; helper lemmas: `Lemmas/F/Placeholders*.lean`
-(composition: `Lemmas/F/PlaceholdersXFn.lean`).  Core Lean only.
+(composition: `Lemmas/F/PlaceholdersXFn.lean`, `Lemmas/F/PlaceholdersXAllF.lean`).  Core Lean only.
 -/
-import MdVerif.Lemmas.F.PlaceholdersXFn
+import MdVerif.Lemmas.F.PlaceholdersXAllF
 
 namespace MdVerif.NoCtlXF
 open MdVerif.NoCtl (NoCtl C10DomainL RefsOK) 
@@ -44,8 +45,10 @@ open Py
     and footnote tokens, the backtick pattern matching nowhere at or before an STX that does not start a footnote
     token — the escapable characters are ordinary ones, the reference definitions and the footnote ids hold no STX/ETX,
     then every element of the result is such an element again (no inline placeholder is left), and the raw-HTML stash
-    is untouched. -/
-theorem C10X_inline_stage_footnotes {xc : InlineX.XCfg} (hcfg : NoCtlF.EscOK xc.cfg.esc) (hrefs : RefsOK xc.cfg)
+    is untouched.  (The grammar has two parameters, `NoCtlF.HtmlBound`: are footnote tokens admitted, and how many
+    raw-HTML placeholders `STX wzxhzdk:N ETX` — a third kind of foreign token, written by the fenced_code preprocessor,
+    see `Props/C10XAll.lean` —; the statement holds for every choice.) -/
+theorem C10X_inline_stage_footnotes [NoCtlF.HtmlBound] {xc : InlineX.XCfg} (hcfg : NoCtlF.EscOK xc.cfg.esc) (hrefs : RefsOK xc.cfg)
     (hkeys : ∀ k ∈ xc.fnKeys, NoCtl k) {fn wl nl : Bool} (ht : xc.table = InlineX.table fn wl nl)
     {tree t : Node} {html : List Str} {xs : InlineX.XSt}
     (htree : tree.Forall (NoCtlF.WNodeB 0)) (htq : tree.Forall (QN wl))
@@ -71,12 +74,12 @@ theorem C10X_partial_footnotes (x : PipelineX.Exts) (hx : x.fencedCode = false)
   convertX_noctl_all_fn hx hcfg hd.1 hd.2 habbr h
 
 /-- the default escapable characters satisfy the hypothesis -/
-example : NoCtlF.EscOK ({} : Pipeline.Cfg).esc := NoCtlF.escOK_default
+example : NoCtlF.EscOK ({} : Pipeline.Cfg).esc := escOK_default0
 
 /-- with footnotes off the hypothesis on the abbreviations implies the one of
     `C10X_partial_all_but_footnotes_fenced` -/
 example {x : PipelineX.Exts} (hfn : x.footnotes = false) {cfg : Pipeline.Cfg} {src : Str}
-    (h : AbbrKeysOKF x cfg src) : AbbrKeysOK x cfg src := abbrKeysOK_of_F hfn h
+    (h : AbbrKeysOKF x cfg src) : AbbrKeysOK x cfg src := abbrKeysOK_of_F0 hfn h
 
 /-- the hypotheses on a source with a heading with an attribute list, a footnote reference, an abbreviation used in
     the text and in the footnote, a code span in the footnote, `[TOC]`; every extension but fenced_code on -/
@@ -87,7 +90,7 @@ example :
     let src := "# H {: #i }\n\nA[^n] HTML\n\n[^n]: see HTML `x`\n\n*[HTML]: Hyper Text\n\n[TOC]".toList
     x.fencedCode = false ∧ NoCtlF.EscOK ({} : Pipeline.Cfg).esc ∧ C10DomainW x.wikilinks 4 src ∧
     AbbrKeysOKF x {} src :=
-  ⟨by decide, NoCtlF.escOK_default, by decide +kernel, by decide +kernel⟩
+  ⟨by decide, escOK_default0, by decide +kernel, by decide +kernel⟩
 
 /-- … and what `convertX` answers on it: footnote + abbr + toc + attr_list -/
 example : PipelineX.convertX
